@@ -27,8 +27,25 @@ SK = [("table", 1), ("table", 2), ("table", 3), ("seq", 1), ("seq", 2), ("alter"
       ("unsup", 3), ("insert", 1), ("insert", 2), ("upsert", 2), ("grant", 1), ("go", 1), ("set", 1), ("drop", 1), ("serde", 1), ("alter_rn", 1)]
 
 
+def alone_results(behs):
+    """every table / sequence statement of the behaviours parsed ALONE: text -> the entity it yields (C03: `what each statement yields when parsed alone`)"""
+    texts = {}
+    for b in behs:
+        ft = A.first_table_of(b["stmts"])
+        for i, s_ in enumerate(b["stmts"], 1):
+            if s_["k"] in ("table", "serde", "seq"):
+                texts["\n".join(A.pieces(i, s_["k"], s_["n"], ft)) + "\n"] = None
+    keys = sorted(texts)
+    outs, _ = C.parse_many([(t, {}, {}) for t in keys])
+    for t, o in zip(keys, outs):
+        ents = [e for e in o[1] if "comments" not in e] if o[0] == "ok" else None
+        texts[t] = ents[0] if ents and len(ents) == 1 else None
+    return texts
+
+
 def judge(V, behs, res, what, nl):
     nbad = ndrift = 0
+    alone = alone_results(behs)
     for b, (text, out, subs) in zip(behs, res):
         tags = set(F.spec_tags(b))
         if F.drift(b, subs, 0) and nl:
@@ -59,6 +76,22 @@ def judge(V, behs, res, what, nl):
                     want_order.append(f"sq{i}")
             if not paths and order != want_order:
                 paths.append("order")
+            if not paths and not tags:
+                # the whole entity, not only its projection: equal to what the statement yields alone (tables named by an ALTER of the script excepted)
+                ft = A.first_table_of(b["stmts"])
+                altered = ft if any(s_["k"] in ("alter", "alter_rn") for s_ in b["stmts"]) else None
+                byname = {}
+                for e in out[1]:
+                    nm = e.get("table_name") or e.get("sequence_name")
+                    if nm:
+                        byname.setdefault(nm, []).append(e)
+                for i, s_ in enumerate(b["stmts"], 1):
+                    if s_["k"] in ("table", "serde", "seq") and i != altered:
+                        want = alone.get("\n".join(A.pieces(i, s_["k"], s_["n"], ft)) + "\n")
+                        have = byname.get(("sq" if s_["k"] == "seq" else "t") + str(i), [])
+                        if want is not None and (len(have) != 1 or C.jnorm(have[0]) != C.jnorm(want)):
+                            paths.append("differs_from_alone")
+                            break
             got = ents
         if paths:
             nbad += 1
@@ -159,12 +192,28 @@ def run(tier, seed):
                            Kinds='{"addcol","unique","index"}'), "re-created table (generation)")
     nd_, _, ndb = c04.compare(V, gd.beh, [seed], "a table defined again: later ALTER / INDEX statements belong to the latest definition")
     cov["generation"].append({"config": "registry: table re-created between ALTER / INDEX statements", "behaviours": len(gd.beh), "mismatches": ndb})
+    # the same sequences in every other output mode (a later ALTER must be merged whatever dialect class holds the table): each mode a slice, and
+    # sequences of column-changing ALTERs on one table in all of them
+    from .. import clauses as KM
+    others = [m for m in KM.MODES if m != "sql"]
+    gq = c04.mc(c04.consts(WithHist="TRUE", Universe=c04.U1, MaxCreates=1, MaxStmts=4, Spells=c04.SS, Kinds='{"addcol","drop","modify","fk"}', Lean="TRUE"),
+                "ALTER sequences on one table (generation)")
+    seqs = [b for b in gq.beh if len(b["hist"]) >= 3 and not b["err"]]
+    seqs = seqs if thorough else rnd.sample(seqs, min(len(seqs), 140))
+    nm_ = 0
+    for i_, m_ in enumerate(others):
+        n1_, _, b1_ = c04.compare(V, gd.beh[i_::len(others)], [seed], f"re-created table / {m_}", run={"output_mode": m_})
+        n2_, _, b2_ = c04.compare(V, seqs, [seed], f"ALTER sequences / {m_}", run={"output_mode": m_})
+        nm_ += n1_ + n2_
+    cov["generation"].append({"config": "registry sequences in every output mode", "modes": others, "renderings": nm_})
+    states += gq.distinct
+    trans += gq.generated
     states += gd.distinct
     trans += gd.generated
     F.mc(F.consts([("table", 2), ("seq", 1)], MaxStmts=2, CmStyles='{"block3"}', MaxCm=1, Variant='"mlc_sticky"'), "state carried over", expect="CleanBoundary")
     EF.mc(EF.consts(MaxOpts=1, MaxStmts=2, WithTable="TRUE", ResetSeq="FALSE"), "sequence mode not reset", expect="SeqModeLocal")
     cov["negative_controls"] = ["Assembler Variant=mlc_sticky refutes CleanBoundary", "Entities ResetSeq=FALSE refutes SeqModeLocal"]
-    total = nd_
+    total = nd_ + nm_
     drift = 0
     sample = None
     for what, cs in cfgs:
